@@ -23,7 +23,10 @@ type verifVector struct {
 	Harness string          `json:"harness"`
 	Params  map[string]int  `json:"params"`
 	Nondets []verifVecEntry `json:"nondets"`
+	Loose   bool            `json:"loose"` // translator validation: values are taken in order regardless of tags
 }
+
+var verifReached []string
 
 var verifVec verifVector
 var verifVecPos int
@@ -48,7 +51,7 @@ func verifNext(tag, kind string) uint64 {
 	}
 	e := verifVec.Nondets[verifVecPos]
 	verifVecPos++
-	if e.Tag != tag {
+	if e.Tag != tag && !verifVec.Loose {
 		panic(fmt.Sprintf("verif replay: vector mismatch at %d: want tag %q, vector has %q", verifVecPos-1, tag, e.Tag))
 	}
 	return e.Val
@@ -63,7 +66,14 @@ func verifBool(tag string) bool  { return verifNext(tag, "bool") != 0 }
 
 // verifChoose returns a value in [0,n); the engine forks over all of them.
 func verifChoose(tag string, n int) int {
-	v := int(verifNext(tag, "choice"))
+	if n <= 0 {
+		return 0
+	}
+	u := verifNext(tag, "choice")
+	if verifVec.Loose {
+		return int(u % uint64(n))
+	}
+	v := int(u)
 	if v >= n {
 		v = 0
 	}
@@ -91,7 +101,7 @@ func verifAssert(c bool, msg string) {
 
 func verifFail(msg string) { panic(verifViolation{msg}) }
 
-func verifReach(tag string)     {}
+func verifReach(tag string)     { verifReached = append(verifReached, tag) }
 func verifUnwind(n int)         {}
 func verifPreempt(n int)        {}
 func verifConcrete(v int) int   { return v }
